@@ -22,10 +22,13 @@ Definition wb_ngran (n : wbnode) : Z :=
 Definition wb_ndw (n : wbnode) : Z :=
   match n with SramLeaf _ _ dw _ _ _ => dw | BridgeNode dw _ _ => dw end.
 
-(* one add(): a dense window between equal geometries, an explicit address is a multiple of the window
-   size (note N2), the tree behind a bridge is in rung 1's domain *)
+(* one add(): a dense window between equal geometries, or a sparse one under a decoder whose granularity
+   is its data width (gbits = 0; add() itself demands granularity = data width of the subordinate then);
+   an explicit address is a multiple of the window size (note N2); the tree behind a bridge is in rung 1's
+   domain *)
 Definition wsub_dom (r : wbroot) (x : wopt * bool * wbnode) : Prop :=
-  snd (fst x) = false /\ wb_ndw (snd x) = wr_dw r /\ wb_ngran (snd x) = wr_gran r /\
+  ((snd (fst x) = false /\ wb_ndw (snd x) = wr_dw r /\ wb_ngran (snd x) = wr_gran r) \/
+   (snd (fst x) = true /\ wbroot_gbits r = 0 /\ wb_ndw (snd x) = wb_ngran (snd x))) /\
   (forall z, o_addr (fst (fst x)) = VInt z -> z mod 2 ^ wb_maw (snd x) = 0) /\
   match snd x with BridgeNode _ _ c => csr_dom c | SramLeaf _ _ _ _ _ _ => True end.
 
@@ -171,7 +174,7 @@ Proof.
   assert (Hgood : forall j o sp n w, nth_error (wr_subs r) j = Some (o, sp, n) -> wb_map n = Ok w ->
                     wf_tree w /\ m_aw w = wb_maw n /\ m_dw w = wb_ngran n).
   { intros j o sp n w Es Hm. apply wb_map_good; [|exact Hm].
-    destruct (Hdom _ (nth_error_In _ _ Es)) as (_ & _ & _ & _ & Hc). cbn [snd] in Hc.
+    destruct (Hdom _ (nth_error_In _ _ Es)) as (_ & _ & Hc). cbn [snd] in Hc.
     destruct n; [exact I|exact Hc]. }
   assert (K1 : Forall (fun x : wopt * option bool * mmap => wf_tree (snd x)) kids).
   { apply Forall_forall. intros x Hx. destruct (Hk x Hx) as (j & o & sp & n & Es & _ & Hm).
@@ -180,12 +183,13 @@ Proof.
   { apply Forall_forall. intros x Hx. destruct (Hk x Hx) as (j & o & sp & n & Es & Ex & Hm).
     rewrite Ex. cbn [fst snd]. intros z Hz.
     destruct (Hgood _ _ _ _ _ Es Hm) as (_ & -> & _).
-    destruct (Hdom _ (nth_error_In _ _ Es)) as (_ & _ & _ & Ha & _). exact (Ha z Hz). }
+    destruct (Hdom _ (nth_error_In _ _ Es)) as (_ & Ha & _). exact (Ha z Hz). }
   assert (K3 : Forall (fun x : wopt * option bool * mmap =>
                          snd (fst x) <> Some false \/ m_dw (snd x) = m_dw m0) kids).
   { apply Forall_forall. intros x Hx. destruct (Hk x Hx) as (j & o & sp & n & Es & Ex & Hm).
-    right. destruct (Hgood _ _ _ _ _ Es Hm) as (_ & _ & ->).
-    destruct (Hdom _ (nth_error_In _ _ Es)) as (_ & _ & Hg & _). cbn [snd] in Hg. congruence. }
+    destruct (Hdom _ (nth_error_In _ _ Es)) as ([(_ & _ & Hg)|(Hsp & _)] & _); cbn [fst snd] in *.
+    - right. destruct (Hgood _ _ _ _ _ Es Hm) as (_ & _ & ->). congruence.
+    - left. rewrite Ex. cbn [fst snd]. rewrite Hsp. discriminate. }
   destruct (add_windows_spec kids _ _ _ H0 K1 K2 K3 H) as (W1 & W2 & W3 & W4 & wins' & W5 & W6 & W7).
   rewrite Fw in W5. cbn [app] in W5.
   constructor; try congruence.
